@@ -6,6 +6,7 @@
   and whose PEAK table (float / double files) is `pk`.
 -/
 import SfProofs.CafSession
+import SfProofs.CafParse
 namespace Sf.C04Caf
 open Sf Sf.Caf Sf.CafW64
 
@@ -132,5 +133,48 @@ example : exCfg.wf ∧ (∀ op ∈ exOps, op.valid exCfg) ∧ sessFrames exOps =
     (close exCfg (run exCfg (openW exCfg 99999) exOps)).bytes.length = 4096 + 12 ∧
     parse (close exCfg (run exCfg (openW exCfg 99999) exOps)).bytes =
       .ok { fmtWord := 0x10180006, ch := 1, sr := 8000, frames := 3, dataoffset := 4096, datalength := 12 } := by decide +kernel
+
+/-! ### re-opening the closed file -/
+
+/-- `reopen_info` for CAF: for every configuration sf_open accepts for writing, every frame count N, every peak table and
+    every encoded audio `data` of N frames, the reader of the closed file reports the requested channels, the format word
+    (CAF | encoding | the byte order the file records), the requested sample rate — every rate a C `int` holds is exact in
+    the binary64 field — and frames = N; the audio starts at `dataOffset` and has exactly N·bw bytes.
+    Guard: the audio is at most 2^31 − 1 bytes (caf_read_header passes `datalength` through an `int`: beyond that the scan
+    would walk into the audio; no file of that size can be run through the harness, so the model does not describe it). -/
+theorem caf_reopen_info (c : Cfg) (hwf : c.wf) (n : Nat) (pk : List Peak) (data : List Byte)
+    (hpk : isFloat c.codec = true → pk.length = c.ch) (hd : data.length = n * c.bw) (hsz : n * c.bw ≤ 0x7FFFFFFF) :
+    parse (image c n pk data) =
+      .ok { fmtWord := (if c.little then 0x10000000 else 0) + 0x180000 + c.codec, ch := c.ch, sr := c.sr, frames := n,
+            dataoffset := dataOffset c, datalength := n * c.bw } :=
+  parse_image c hwf n pk data hpk hd hsz
+
+/-- `read_to_eof`: the bytes between the reported data offset and data length are exactly the audio written — the pad
+    byte is never part of them -/
+theorem caf_reopen_data (c : Cfg) (n : Nat) (pk : List Peak) (data : List Byte)
+    (hpk : isFloat c.codec = true → pk.length = c.ch) (hd : data.length = n * c.bw) :
+    ((image c n pk data).drop (dataOffset c)).take (n * c.bw) = data := by
+  have h := hdrRaw_length c ((n * c.bw : Nat) : Int) pk hpk
+  simp only [image, hdr, List.append_assoc]
+  rw [← h, ← hd]
+  simp
+
+/-- the closed file of ANY valid write session re-opens with what was written: `stale_frames_ignored_caf` and
+    `caf_reopen_info` composed -/
+theorem caf_session_reopen (c : Cfg) (hwf : c.wf) (stale : Int) (ops : List Op) (hv : ∀ op ∈ ops, op.valid c)
+    (hsz : sessFrames ops * c.bw ≤ 0x7FFFFFFF) :
+    parse (close c (run c (openW c stale) ops)).bytes =
+      .ok { fmtWord := (if c.little then 0x10000000 else 0) + 0x180000 + c.codec, ch := c.ch, sr := c.sr, frames := sessFrames ops,
+            dataoffset := dataOffset c, datalength := sessFrames ops * c.bw } := by
+  have i := run_inv (wf_bw_pos hwf) ops (openW_inv c stale) hv
+  rw [(stale_frames_ignored_caf c hwf stale ops hv).1]
+  exact parse_image c hwf _ _ _ (by rw [sessPeaks_eq]; exact i.pklen) (by simpa using i.dlen) hsz
+
+/-- KF-CAF-DATA-MINUS-ONE as a proved witness (foreign files only): the closed 16-bit file of 3 frames with its 'data' size
+    replaced by −1 ("to the end of the file") is refused — the `chunk_size < 0` test ends the chunk walk before the data chunk -/
+theorem caf_data_size_minus_one_refused :
+    let img := image { codec := 0x02, endian := 0, ch := 1, sr := 8000 } 3 [] [0, 1, 0, 2, 0, 3]
+    parse (img.take 4084 ++ List.replicate 8 255 ++ img.drop 4092) = .err ∧
+    parse img = .ok { fmtWord := 0x180002, ch := 1, sr := 8000, frames := 3, dataoffset := 4096, datalength := 6 } := by decide +kernel
 
 end Sf.C04Caf
